@@ -496,7 +496,22 @@ def check_no_global_mutation(ctx, funcs: typing.Iterable[FuncInfo], rule="STATE-
   return n
 
 
+def _is_container_literal(v) -> bool:
+  return isinstance(v, (ast.Dict, ast.List, ast.Set)) or (isinstance(v, ast.Call) and unparse(v.func) in ("dict", "list", "set", "collections.OrderedDict", "collections.defaultdict", "defaultdict", "OrderedDict"))
+
+
 def _global_container(ix: Index, f: FuncInfo, expr) -> typing.Optional[str]:
+  if isinstance(expr, ast.Attribute) and isinstance(expr.value, ast.Name) and expr.value.id in ("cls", "self") and f.cls is not None:
+    # a class-level container reached through cls / self (never re-bound per instance) is shared by all instances
+    for c in ix.mro(f.cls):
+      v = c.assigns.get(expr.attr)
+      if v is not None:
+        if not _is_container_literal(v):
+          return None
+        rebound = any(isinstance(st, (ast.Assign, ast.AnnAssign)) and any(unparse(t) == f"self.{expr.attr}" for t in (st.targets if isinstance(st, ast.Assign) else [st.target]))
+                      for k in ix.mro(f.cls) for m in k.methods.values() for st in own_nodes(m.node))
+        return None if rebound else f"{c.short}.{expr.attr}"
+    return None
   if isinstance(expr, ast.Name) and expr.id in _locals_of(f) and expr.id not in ix.toplevel.get(f.module.name, {}):
     return None
   r = ix.resolve(f.module, expr, cls=f.cls, func=f)
@@ -505,3 +520,59 @@ def _global_container(ix: Index, f: FuncInfo, expr) -> typing.Optional[str]:
     if isinstance(v, (ast.Dict, ast.List, ast.Set)) or (isinstance(v, ast.Call) and unparse(v.func) in ("dict", "list", "set", "collections.OrderedDict")):
       return unparse(expr)
   return None
+
+
+def check_no_process_state(ctx, funcs: typing.Iterable[FuncInfo], rule="STATE-global", allowed: typing.Optional[typing.Dict[str, str]] = None):
+  """No function rebinds module- or class-level state: no `global` statement, no assignment to an
+  attribute of a class / module / module-level instance (other than `self`), and no mutation of a
+  parameter's mutable default value.  Such state survives the call and makes later calls in the same
+  process depend on earlier ones."""
+  from ..core import ClassInfo, Module
+  ix = ctx.ix
+  allowed = allowed or {}
+  n = 0
+  for f in funcs:
+    loc = _locals_of(f)
+    mutable_defaults = set()
+    a = f.node.args
+    pos = a.posonlyargs + a.args
+    for p, d in list(zip(pos[len(pos) - len(a.defaults):], a.defaults)) + [(p, d) for p, d in zip(a.kwonlyargs, a.kw_defaults) if d is not None]:
+      if isinstance(d, (ast.Dict, ast.List, ast.Set)) or (isinstance(d, ast.Call) and unparse(d.func) in ("dict", "list", "set", "collections.OrderedDict", "collections.defaultdict")):
+        mutable_defaults.add(p.arg)
+    for st in own_nodes(f.node):
+      what = None
+      if isinstance(st, ast.Global):
+        what = ("global " + ", ".join(st.names), f"declares {st.names} global and can rebind module state")
+      elif isinstance(st, (ast.Assign, ast.AugAssign, ast.AnnAssign)):
+        ts = st.targets if isinstance(st, ast.Assign) else [st.target]
+        for t in ts:
+          if isinstance(t, ast.Attribute) and isinstance(t.value, (ast.Name, ast.Attribute)):
+            base = t.value
+            if isinstance(base, ast.Name) and base.id == "self":
+              continue
+            if isinstance(base, ast.Name) and base.id == "cls" and f.is_classmethod:
+              what = (unparse(t), f"assigns the class attribute `{unparse(t)}`")
+              continue
+            if isinstance(base, ast.Name) and base.id in loc and base.id not in ix.toplevel.get(f.module.name, {}):
+              continue
+            r = ix.resolve(f.module, base, cls=f.cls, func=f)
+            if isinstance(r, (ClassInfo, Module)):
+              what = (unparse(t), f"assigns `{unparse(t)}`, an attribute of the {'class' if isinstance(r, ClassInfo) else 'module'} `{unparse(base)}`")
+            elif isinstance(r, tuple) and r[0] == "assign" and isinstance(base, ast.Name) and base.id in ix.toplevel.get(f.module.name, {}):
+              what = (unparse(t), f"assigns `{unparse(t)}`, an attribute of the module-level object `{unparse(base)}`")
+          if isinstance(t, ast.Subscript) and isinstance(t.value, ast.Name) and t.value.id in mutable_defaults:
+            what = (unparse(t.value) + "[...]", f"stores into the mutable default value of parameter `{t.value.id}`, which is shared by all calls")
+      elif isinstance(st, ast.Call) and isinstance(st.func, ast.Attribute) and st.func.attr in MUTATING and isinstance(st.func.value, ast.Name) and st.func.value.id in mutable_defaults:
+        rebinds = any(isinstance(x, ast.Assign) and any(isinstance(y, ast.Name) and y.id == st.func.value.id for y in x.targets) for x in own_nodes(f.node))
+        if not rebinds:
+          what = (unparse(st.func), f"mutates the mutable default value of parameter `{st.func.value.id}`, which is shared by all calls")
+      if what is None:
+        continue
+      n += 1
+      ctx.unit(f.module)
+      key = f"{f.qualname}|{what[0]}"
+      if what[0] in allowed:
+        ctx.ok(rule, key + "|allowed", ctx.where(f.module, st), "tabled: " + allowed[what[0]])
+      else:
+        ctx.bad(rule, key, ctx.where(f.module, st), f"`{short(st, 60)}` {what[1]}: the effect persists into later conversions in the same process")
+  return n
